@@ -219,6 +219,23 @@ def h_sample(ctx, name, variant, role):
     return obs
 
 
+def h_sample_twice(ctx, name):
+    """two stanzas of the same documented shape (independent field values, different list members) are converted one after the other in
+    one process: the second comes back as itself -- nothing of the first conversion is left in it"""
+    C, node, _, keep = _sample(name)
+    lv = 1 if _has_list(node) else None
+    sym1 = SC.symbolise(ctx, node, namer=SC.Namer("a"), list_variant=lv, keep=SC.DISCRIMINATORS + tuple(keep))
+    sym2 = SC.symbolise(ctx, node, namer=SC.Namer("b"), list_variant=lv, keep=SC.DISCRIMINATORS + tuple(keep))
+    SC.assume_distinct_members(ctx, sym1, sym2)
+    ent1 = C.fromProtocolTreeNode(sym1)
+    if ent1 is not None:
+        ent1.toProtocolTreeNode()
+    ent2 = C.fromProtocolTreeNode(sym2)
+    if ent2 is None:
+        return [("the parser returns an entity for the documented stanza", False)]
+    return SC.node_obs("second", ent2.toProtocolTreeNode(), sym2)
+
+
 # ---- classes without a parser: constructed with symbolic arguments ------------------------------------------------
 def _direct(ctx, which):
     s = lambda n: H.zstr(ctx, n)
@@ -350,6 +367,8 @@ def cases(tier):
         for opt in OPTIONAL_ATTRS:
             if opt in node.attributes and not (opt == "participant" and node.tag == "notification"):
                 variants.append("without-" + opt)
+        if "in" in roles:
+            cs.append(dict(name="sample[%s:%s,in,second conversion]" % (name, C.__name__), fn=h_sample_twice, args=(name,), timeout_s=120, max_paths=3000, keep_samples=3))
         for r in roles:
             for v in variants:
                 cs.append(dict(name="sample[%s:%s,%s,%s]" % (name, C.__name__, r, v), fn=h_sample, args=(name, v, r), timeout_s=120, max_paths=3000, keep_samples=3))
